@@ -456,6 +456,7 @@ func (c01) Run(ctx *Ctx, ci interface{}) (o Outcome) {
 		by   string
 	}
 	var left []leftBehind
+	trimMap := map[string]string{}
 	// check is evaluated after every operation. modelled: the model fixes the content.
 	check := func(modelled bool) bool {
 		for _, lb := range left {
@@ -685,7 +686,28 @@ func (c01) Run(ctx *Ctx, ci interface{}) (o Outcome) {
 			}
 		case "trim-names":
 			modelled = false
-			cont.TrimNames(map[string]string{}, op.N)
+			// one map for the whole history, as a caller that shortens several inputs passes it again and again;
+			// sometimes it already holds, for a later row, the short name an earlier row is about to be given
+			if op.Flag && n >= 2 && !m.dupNames() {
+				i := op.I % (n - 1)
+				j := i + 1 + op.J%(n-1-i)
+				short := strings.NewReplacer(":", "", "_", "").Replace(m.rows[i].Name)
+				for len(short) < op.N-2 {
+					short += "x"
+				}
+				if op.N-2 >= 0 && len(short) >= op.N-2 {
+					short = short[:op.N-2] + "01"
+					used := false
+					for _, v := range trimMap {
+						used = used || v == short
+					}
+					if _, ok := trimMap[m.rows[j].Name]; !ok && !used {
+						trimMap[m.rows[j].Name] = short
+						o.Add("trim_names_with_a_map_that_already_holds_a_colliding_short_name", 1)
+					}
+				}
+			}
+			cont.TrimNames(trimMap, op.N)
 		case "trim-names-auto":
 			modelled = false
 			id := 1
